@@ -189,10 +189,16 @@ func getPool(p *sync.Pool) *simPool {
 }
 
 // PoolGet replaces (*sync.Pool).Get in the instrumented library.
+// poolMu serialises the simulated pool when helper goroutines of the library
+// use it from several threads (uncontended otherwise).
+var poolMu sync.Mutex
+
 func PoolGet(p *sync.Pool) interface{} {
 	if PoolView == nil {
 		return p.Get()
 	}
+	poolMu.Lock()
+	defer poolMu.Unlock()
 	sp := getPool(p)
 	idx := getIdx
 	getIdx++
@@ -262,7 +268,9 @@ func PoolGet(p *sync.Pool) interface{} {
 		pstats.Nil++
 		if p.New != nil {
 			// like the real pool: an empty pool with a New function never returns nil
-			v := p.New()
+			poolMu.Unlock()
+			v := p.New() // library code: must not run under the pool's own lock
+			poolMu.Lock()
 			if id, _, _ := viewOf(v); id != 0 {
 				sp.owner[id] = tid
 			}
@@ -295,6 +303,8 @@ func PoolPut(p *sync.Pool, v interface{}) {
 		p.Put(v)
 		return
 	}
+	poolMu.Lock()
+	defer poolMu.Unlock()
 	sp := getPool(p)
 	idx := putIdx
 	putIdx++
@@ -431,6 +441,8 @@ func ScratchGet(p unsafe.Pointer) {
 	if id == 0 {
 		return
 	}
+	poolMu.Lock()
+	defer poolMu.Unlock()
 	ScratchGets++
 	tid := -1
 	if on && cur != nil && quiet == 0 {
@@ -449,6 +461,8 @@ func ScratchPut(p unsafe.Pointer) {
 	if id == 0 {
 		return
 	}
+	poolMu.Lock()
+	defer poolMu.Unlock()
 	ScratchPuts++
 	if _, held := scratchOwner[id]; !held {
 		tid := -1
